@@ -23,14 +23,14 @@ DESC = [
     (r"^C03/applied-differs/entry-left-without-key-leaf$", "Diff deletes the leaves of a removed list entry one by one, key leaf included; applied in an unlucky order the entry survives without its key", "ygot/diff.go + ytypes.DeleteNode; witness: removed entry of /lists/by-idref"),
     (r"^C03/apply-error/cannot convert type invalid to a string for use in a key$", "same root: after the key leaf of a union-keyed entry was deleted, the next delete fails converting the nil key", "ytypes/list.go; witness: removed entry of /lists/by-union"),
     (r"^C03/applied-differs/leaf:leaf:union\+zero-value$", "Diff ignores simple-union leaves holding 0, \"\" or false (IsValueNilOrDefault), so such leaves never reach the replica", "ygot/diff.go findSetLeaves; witness: Scalars.Un = UnionInt64(0)"),
-    (r"^C03/delete-of-leaf-in-b/leaf:union(\+zero-value)?$", "same root: a union leaf whose new value is a zero value is reported as deleted", "ygot/diff.go; witness: Scalars.Un3 = UnionBool(false)"),
-    (r"^C03/ignore-additions/drops-changed-leaf:leaf:union(\+zero-value)?$", "same root under IgnoreAdditions: the changed union leaf with a zero value is omitted", "ygot/diff.go"),
     (r"^C03/diff-error/detected nested _ list$", "Diff refuses nested ordered-by user lists (documented 'not supported')", "ygot/render.go"),
     # ---- C04
     (r"^C04/shared-memory:(DeepCopy|MergeStructs)/map-key-pointer$", "wrapper-union list keys are pointers; the copy's map uses the original's key pointer, which is also the entry's key leaf", "ygot/struct_validation_map.go copyMapField; witness: vt/U-wrapper /lists/by-union"),
     # ---- C05
     (r"^C05/(conflict-not-detected/leaf-conflict:leaf:string|overwrite-result/leaf:leaf:string|swap-differs/leaf:leaf:string|result-not-union/leaf:leaf:string)@wrapper-union-key$", "wrapper-union list keys are compared by pointer, so entries with equal keys are not merged (two map entries for one YANG key)", "ygot copyMapField; witness: vt/U-wrapper /lists/by-union"),
     (r"^C05/conflict-not-detected/ordered-list-partial-overlap$", "orderedMapKeysMergeable accepts partially overlapping ordered lists when src's first key is not in dst (greedy scan ends with si==0 = 'disjoint')", "ygot/struct_validation_map.go; witness: dst=[x,y] src=[z,y]"),
+    (r"^C05/(overwrite-result|result-not-union)/order:ordered-list@wrapper-union-key$", "same root for ordered lists keyed by a wrapper union: entries with equal keys are not recognised as the same entry, the merged list holds both", "ygot/struct_validation_map.go mergeOrderedMap; witness: vt/U-wrapper /olists/oc5/ord-un"),
+    (r"^C05/conflict-not-detected/(ordered-list-partial-overlap|ordered-list-order-conflict|leaf-conflict:leaf:string)@wrapper-union-key$", "same root: conflicting entries / orders of an ordered list keyed by a wrapper union are not seen as conflicts because no two keys ever compare equal", "ygot orderedMapKeysMergeable; witness: vt/U-wrapper /olists/oc5/ord-un"),
     # ---- C06
     (r"^C06/decimal-range/", "yang.FromFloat converts the float64 inexactly (or to more than 18 fraction digits), so values equal to a range bound / tiny values are misjudged", "ytypes/decimal_type.go + goyang FromFloat; witness: fd=2 range 2.01..10.00 value 2.01"),
     (r"^C06/pattern-rejects-own-member/rejects-member:caret-after-escaped-bracket$", "fixYangRegexp keeps '^' as an anchor after an escaped '\\[' (prevChar check ignores the escape), so the pattern matches nothing", "util/yang.go fixYangRegexp; witness: pattern \\[^a"),
@@ -42,7 +42,6 @@ DESC = [
     (r"^C07/fault-accepted/choice-two-cases", "Validate does not detect two populated cases of a choice whose cases are shorthand / nested", "ytypes/choice.go; witness: /choices c1a + c3"),
     (r"^C07/fault-accepted/leaf-list-", "Validate does not enforce uniqueness or min/max-elements of leaf-lists", "ytypes/leaf_list.go validateLeafList"),
     (r"^C07/fault-accepted/list-below-min-elements:nil-map$", "min-elements of a list is not enforced when the map is nil under an existing parent", "ytypes/list.go validateList; witness: /lists/bounded absent"),
-    (r"^C07/valid-tree-rejected/", "a simple-union value of the boolean member (UnionBool) fails validation ('non bool type')", "ytypes/leaf.go validateUnion; witness: Scalars.Un3 = UnionBool(true)"),
     # ---- C08
     (r"^C08/.*/value-contains:backslash$", "PathToString does not escape '\\' in key values", "ygot/pathstrings.go elemToString; witness: e0[k0=\\]"),
     (r"^C08/.*/value-contains://$", "path.Join in PathToString cleans '//' inside key values", "ygot/pathstrings.go; witness: e0[k0=//]"),
@@ -51,28 +50,23 @@ DESC = [
     (r"^C08/.*/value-contains:\]/$", "SplitPath ignores escapes inside keys: '\\]' ends the key and '/' splits the element", "util/path.go SplitPath; witness: e0[k0=]/]"),
     (r"^C08/.*/value-contains:\]\]$", "SplitPath loses track after the first escaped ']'", "util/path.go SplitPath; witness: e0[k0=]]]"),
     # ---- C09
-    (r"^C09/comparepaths/got=PartialIntersect,want=Disjoint:later-element-disjoint$", "ComparePaths returns PartialIntersect as soon as one element partially intersects, although a later element is disjoint", "util/gnmi.go ComparePaths; witness: /a[k=1]/b vs /a[j=1]/c"),
-    (r"^C09/(comparepaths|nondeterministic)/.*same-element-key-disjoint$", "comparePathElem returns PartialIntersect before scanning a disjoint key; the answer depends on map iteration order", "util/gnmi.go comparePathElem; witness: /d[i=*][j=1][k=1] vs /d[i=1][j=2]"),
     # ---- C12 / C13
     (r"^C12/delete-error/whole-(ordered-)?list:present:list-path-without-keys$", "a keyed-list path without keys cannot be deleted on uncompressed code (NotFound)", "ytypes/node.go retrieveNodeList; witness: DeleteNode(/lists/bounded)"),
-    (r"^C12/empty-ancestor-remains/", "after the last entry of an ordered list is deleted an empty ordered map stays behind and the containers above it are not pruned", "ytypes/node.go; witness: delete /olists/oc1/ordered[k=x]"),
     (r"^C13/request-rejected/(list-path-without-keys|failed to create map value for insert)$", "delete/replace of a keyed-list path without keys is rejected", "ytypes/node.go; witness: replace /cfgstate/cl with a JSON array"),
+    # ---- C15
+    (r"^C15/nil-key-accepted/AppendNilKey:(map|parent):single-key:union-key$", "Append on an ordered map (and the parent's Append<List>) accepts an entry whose union key is nil and stores it under the nil interface key", "gogen/ordered_list.go Append; witness: oc5 ord-un Append(&Entry{})"),
     # ---- C22 / C11 / C21 : fixed, nothing listed
     (r"^C22/same-intent-differs/json-for-leaves:schema:non-openconfig-list-entry$", "with a schema, gnmidiff still flattens JSON by the OpenConfig convention: every direct leaf child of a list entry is taken for a key", "gnmidiff/json.go flattenOCJSONAux; witness: vt /lists/multi"),
     # ---- C24
-    (r"^C24/protofrompaths-error/direct-only:uint-wrapper", "PathsFromProto returns uint64 for uint wrappers, ProtoFromPaths accepts only uint (or a TypedValue)", "protomap/proto.go makeWrapper; witness: ExampleMessage{Ui:42}"),
     (r"^C24/protofrompaths-error/direct-only:leaflist-", "PathsFromProto returns leaf-lists as []interface{}, ProtoFromPaths accepts only typed slices or a TypedValue", "protomap/proto.go makeSimpleLeafList"),
     (r"^C24/roundtrip-differs/both:list\[uint64\]>container:missing$", "a container nested in a keyed-list entry is dropped (prefix with keys does not match the annotated path)", "protomap/proto.go; witness: Afts.NextHop[1].IpInIp"),
     (r"^C24/roundtrip-differs/both:leaflist-union:changed", "an enum member of a union leaf-list comes back as the string member", "protomap/proto.go makeUnionLeafList"),
     (r"^C24/path-value-differs/leaflist-union:nil-for-zero-valued-member$", "a union element holding a proto3 zero value is emitted as nil", "protomap/proto.go; witness: PushedMplsLabelStack [0]"),
     (r"^C24/list-not-rebuilt/list\[string\]@depth1$", "a keyed list without a surrounding container is not rebuilt (entry path assumed two elements deep)", "protomap/proto.go createListField; witness: ExampleMessage.em"),
     # ---- C25
-    (r"^C25/nondeterministic-output/gostructs(-inproc)?:enum-map$", "identities of the same name defined in several modules: DefiningModule (and duplicated names) in the generated enum map depend on map iteration", "ygen/enumgen.go; witness: random plain schema with same-named identities"),
-    (r"^C25/nondeterministic-output/gostructs(-inproc)?:schema-blob\.(Augmented|Values)-order$", "the embedded schema JSON lists goyang's Augmented entries / identity Values in map-iteration order", "ygen/schemaparse.go (goyang Entry.Augmented, Identity.Values); witness: vt + vt-aug + vt-undef"),
     # ---- C26
     (r"^C26/schema-node-not-covered/top-level-choice$", "data nodes inside a choice at the top of a module are silently dropped from the fake root", "ygen/genir.go; witness: module-level 'choice label { case data_link { leaf kind ...'"),
     # ---- C28 (generated protobufs)
-    (r"^C28/field-number-out-of-range/tag=0", "the FNV-derived field tag can be 0", "protogen fieldTag"),
     (r"^C28/duplicate-field-number/", "field tags of sibling fields / oneof members collide (same hash) and are emitted", "protogen fieldTag"),
     (r"^C28/duplicate-field-name/", "generated field names collide (oneof member vs sibling, multi-key list key message)", "protogen"),
     (r"^C28/enum-value-lost/", "identity/enum values are lost when their value numbers collide or hit 0/-1", "protogen"),
